@@ -153,6 +153,16 @@ func isVXLANRoute(m *proto.RouteUpdate) bool {
 	return m.IpPoolType == proto.IPPoolType_VXLAN && m.DstNodeName != "" && (m.Types&proto.RouteType_REMOTE_WORKLOAD != 0 || m.Types&proto.RouteType_REMOTE_TUNNEL != 0) && !m.SameSubnet
 }
 
+// vxlanRouteVia returns the destination of some VXLAN route currently programmed via node ("" if none).
+func (d *modelDP) vxlanRouteVia(node string) string {
+	for _, k := range sortedKeys(d.objs) {
+		if r, ok := d.objs[k].(*proto.RouteUpdate); ok && isVXLANRoute(r) && r.DstNodeName == node {
+			return r.Dst
+		}
+	}
+	return ""
+}
+
 // startFlush resets the per-flush ordering bookkeeping.
 func (d *modelDP) startFlush() {
 	d.flushVTEPAdded, d.flushRouteAddedAt, d.flushVTEPRemoved = map[string]int{}, map[string]int{}, map[string]int{}
@@ -290,6 +300,13 @@ func (d *modelDP) OnEvent(event interface{}) {
 	case *proto.VXLANTunnelEndpointUpdate:
 		if _, had := d.objs["vtep|"+m.Node]; !had {
 			d.flushVTEPAdded[m.Node] = d.nEvents
+			// A tunnel endpoint that still exists must not be taken away from routes that use it: a change of
+			// its details is one update, never remove-then-add with the routes left in place in between.
+			if at, removed := d.flushVTEPRemoved[m.Node]; removed && !d.noFlushBoundaries {
+				if dst := d.vxlanRouteVia(m.Node); dst != "" {
+					d.viol("vtep_removed_while_routes_use_it", "tunnel endpoint of node %s was removed at event %d and added back in the same flush while the VXLAN route %s via that node stayed in place", m.Node, at, dst)
+				}
+			}
 		}
 		d.objs["vtep|"+m.Node] = m
 	case *proto.VXLANTunnelEndpointRemove:
